@@ -63,3 +63,39 @@ func VerifC13DeleteCondition(rl RateLimiter, k int, condition *proxyv1alpha1.Rat
 	r.deleteCondition(st, condition, "verif")
 	return true
 }
+
+// VerifC13SetStopCallback re-wires the elector's callbacks: OnStartedLeading stays the limiter's startLeading,
+// OnStoppedLeading becomes f (the harness passes a function that ends in VerifC13StopLeadingStepped).
+func VerifC13SetStopCallback(rl RateLimiter, f func(shardId int)) {
+	r := rl.(*rateLimiter)
+	r.leaderElector.SetCallbacks(elector.LeaderCallbacks{OnStartedLeading: r.startLeading, OnStoppedLeading: f})
+}
+
+// VerifC13StopLeadingStepped is rateLimiter.stopLeading + stopLimitStoreWithRetry with the 2 s sleep between
+// attempts replaced by a call of between(attempt, err) (the shape of both functions is a regenerated fact,
+// gen_stop). It answers the store that was removed (nil if none), the number of Stop attempts and whether one
+// of them returned nil.
+func VerifC13StopLeadingStepped(rl RateLimiter, shardId int, between func(attempt int, err error)) (_interface.LimitStore, int, bool) {
+	r := rl.(*rateLimiter)
+	r.limitStoreLock.Lock()
+	limitStore := r.limitStoreMap[shardId]
+	delete(r.limitStoreMap, shardId)
+	r.limitStoreLock.Unlock()
+
+	attempts, ok := 0, false
+	if limitStore != nil {
+		for i := 0; i < 10; i++ {
+			err := limitStore.Stop()
+			attempts++
+			if err == nil {
+				ok = true
+				break
+			}
+			between(i, err)
+		}
+	}
+	return limitStore, attempts, ok
+}
+
+// VerifC13StopLeading is the real rateLimiter.stopLeading (sleeps 2 s between failed Stop attempts).
+func VerifC13StopLeading(rl RateLimiter, shardId int) { rl.(*rateLimiter).stopLeading(shardId) }
